@@ -92,10 +92,10 @@ func clip(s string) string {
 }
 
 func run(t *rapid.T, prop string) {
-	b := fam.Bounds{MaxRows: 16, MaxCols: 4, MaxMembers: 24, HugeOdds: 800, GiantOdds: uint64(core.EnvInt("VERIF_GIANT_ODDS", 3000))}
+	b := fam.Bounds{MaxRows: 16, MaxCols: 4, MaxMembers: 24, HugeOdds: 800, GiantOdds: uint64(core.EnvInt("VERIF_GIANT_ODDS", 3000)), LongNamesOdds: 30}
 	maxOps, maxBuild := 4, 5
 	if core.Thorough() {
-		b = fam.Bounds{MaxRows: 40, MaxCols: 5, MaxMembers: 40, HugeOdds: 500, GiantOdds: uint64(core.EnvInt("VERIF_GIANT_ODDS", 2000))}
+		b = fam.Bounds{MaxRows: 40, MaxCols: 5, MaxMembers: 40, HugeOdds: 500, GiantOdds: uint64(core.EnvInt("VERIF_GIANT_ODDS", 2000)), LongNamesOdds: 30}
 		maxOps, maxBuild = 7, 8
 	}
 	w := fam.NewWorld(t, b)
